@@ -47,12 +47,18 @@ func GenerateConcurrent(bitsize int, stop chan struct{}) (<-chan *big.Int, <-cha
 					return
 				}
 
-				// Only send result and continue generating if we have not been told to stop
+				// Generate() returns nil if it has been told to stop
+				if x == nil {
+					return
+				}
+
+				// Only send result and continue generating if we have not been told to stop. The
+				// send must be part of the select: if the receiver has stopped listening and the
+				// channel buffer is full, a plain send would block this goroutine forever.
 				select {
 				case <-stopped:
 					return
-				default:
-					ints <- x
+				case ints <- x:
 					continue
 				}
 			}
